@@ -104,6 +104,17 @@ func (c *Ctx) inferModel(rule string) *inferModel {
 	if fn == nil {
 		return nil
 	}
+	// the json tag parser is a role anchor (C04/tag-parser), not a helper to see through
+	if _, done := c.roles["role:tag-parser"]; !done {
+		c.roles["role:tag-parser"] = nil
+		for _, fi := range c.familyInstrs(fn) {
+			if call, ok := fi.I.(*ssa.Call); ok {
+				if callee := call.Call.StaticCallee(); callee != nil && c.P.InPkg(callee) && callee.Signature.Params().Len() == 1 && isNamed(callee.Signature.Params().At(0).Type(), "reflect", "StructField") {
+					c.roles["role:tag-parser"] = callee
+				}
+			}
+		}
+	}
 	m := &inferModel{fn: fn, subj: typeSubjectSet(fn, fn.Params[0])}
 	m.kf = KindFlow(fn, func(v ssa.Value) bool { return m.subj[v] }, nil)
 	return m
@@ -112,7 +123,7 @@ func (c *Ctx) inferModel(rule string) *inferModel {
 // storesToField lists stores into the named Schema field in fn.
 func (c *Ctx) storesToField(fn *ssa.Function, field string) []*ssa.Store {
 	var out []*ssa.Store
-	core.EachInstr(fn, func(i ssa.Instruction) {
+	c.eachFam(fn, func(i ssa.Instruction) {
 		if st, ok := i.(*ssa.Store); ok {
 			if fa, ok := st.Addr.(*ssa.FieldAddr); ok && c.fieldName(fa.X.Type(), fa.Field) == field {
 				out = append(out, st)
@@ -134,7 +145,13 @@ func ruleC04KindCoverage(c *Ctx) {
 		for _, st := range c.storesToField(m.fn, f) {
 			// only stores into the schema under construction (a fresh Schema of this activation), not into a substituted one
 			fa := st.Addr.(*ssa.FieldAddr)
-			if _, isAlloc := fa.X.(*ssa.Alloc); !isAlloc {
+			fresh := true
+			for _, src := range traceSourcesDeep(fa.X) {
+				if _, isAlloc := src.(*ssa.Alloc); !isAlloc {
+					fresh = false
+				}
+			}
+			if !fresh {
 				continue
 			}
 			ks := m.kf.At(st)
@@ -144,7 +161,7 @@ func ruleC04KindCoverage(c *Ctx) {
 		}
 	}
 	// Interface: unrestricted (no store); detect an explicit comparison with Interface
-	core.EachInstr(m.fn, func(i ssa.Instruction) {
+	c.eachFam(m.fn, func(i ssa.Instruction) {
 		if bo, ok := i.(*ssa.BinOp); ok && bo.Op == token.EQL {
 			if k, ok := bo.Y.(*ssa.Const); ok {
 				if call, ok := bo.X.(*ssa.Call); ok && call.Call.IsInvoke() && call.Call.Method.Name() == "Kind" && m.subj[call.Call.Value] {
@@ -233,7 +250,7 @@ func ruleC04NullAs(c *Ctx, rule string) {
 	// before it (a memo, a fast path) hands the pointee's schema to a pointer and rejects its null.
 	if m := c.inferModel(rule); m != nil {
 		var flag *ssa.Phi
-		core.EachInstr(m.fn, func(i ssa.Instruction) {
+		c.eachFam(m.fn, func(i ssa.Instruction) {
 			phi, ok := i.(*ssa.Phi)
 			if !ok || !isBoolType(phi.Type()) {
 				return
@@ -462,7 +479,7 @@ func ruleAnonTag(c *Ctx, rule string) {
 		return
 	}
 	n := 0
-	core.EachInstr(m.fn, func(i ssa.Instruction) {
+	c.eachFam(m.fn, func(i ssa.Instruction) {
 		ifi, ok := i.(*ssa.If)
 		if !ok {
 			return
@@ -481,7 +498,7 @@ func ruleAnonTag(c *Ctx, rule string) {
 		// in the region dominated by the true successor, the tag of the field must be consulted
 		region := ifi.Block().Succs[0]
 		consulted := false
-		core.EachInstr(m.fn, func(j ssa.Instruction) {
+		c.eachFam(m.fn, func(j ssa.Instruction) {
 			call, ok := j.(*ssa.Call)
 			if !ok || !(region.Dominates(call.Block())) {
 				return
@@ -503,7 +520,7 @@ func ruleAnonTag(c *Ctx, rule string) {
 		// only an embedded STRUCT has fields to promote: an embedded named non-struct type is an ordinary
 		// field named after the type, so the decision to skip the embedded field must look at its kind
 		kindTested := false
-		core.EachInstr(m.fn, func(j ssa.Instruction) {
+		c.eachFam(m.fn, func(j ssa.Instruction) {
 			bo, ok := j.(*ssa.BinOp)
 			if !ok || (bo.Op != token.EQL && bo.Op != token.NEQ) || !region.Dominates(bo.Block()) {
 				return
@@ -538,7 +555,7 @@ func ruleAnonTag(c *Ctx, rule string) {
 			// encoding/json promotes an embedded struct's fields unless the tag gives it a NAME: a tag with
 			// options only (`json:",omitempty"`) still promotes. The decision must look at the name, not at the tag's presence.
 			presenceOnly, byName := "", false
-			core.EachInstr(m.fn, func(j ssa.Instruction) {
+			c.eachFam(m.fn, func(j ssa.Instruction) {
 				jf, ok := j.(*ssa.If)
 				if !ok || !region.Dominates(jf.Block()) {
 					return
@@ -761,14 +778,7 @@ func ruleTagParser(c *Ctx, rule string) {
 	if m == nil {
 		return
 	}
-	var tp *ssa.Function
-	core.EachInstr(m.fn, func(i ssa.Instruction) {
-		if call, ok := i.(*ssa.Call); ok {
-			if callee := call.Call.StaticCallee(); callee != nil && c.P.InPkg(callee) && callee.Signature.Params().Len() == 1 && isNamed(callee.Signature.Params().At(0).Type(), "reflect", "StructField") {
-				tp = callee
-			}
-		}
-	})
+	tp := c.roles["role:tag-parser"]
 	if tp == nil {
 		c.R.Unresolved(rule, "json tag parser (package function taking a reflect.StructField)")
 		return
@@ -1008,11 +1018,22 @@ func ruleC16Clone(c *Ctx) {
 		return
 	}
 	// values derived from the table: lookups in it, and fields / map elements of such schemas
+	isTable := func(v ssa.Value) bool {
+		if v == tableParam {
+			return true
+		}
+		for _, src := range traceSourcesDeep(v) {
+			if src == tableParam {
+				return true
+			}
+		}
+		return false
+	}
 	fromTable := func(v ssa.Value) bool {
 		for d := 0; d < 8; d++ {
 			switch x := v.(type) {
 			case *ssa.Lookup:
-				if x.X == tableParam {
+				if isTable(x.X) {
 					return true
 				}
 				v = x.X
@@ -1024,7 +1045,7 @@ func ruleC16Clone(c *Ctx) {
 				v = x.Tuple
 			case *ssa.Phi:
 				for _, e := range x.Edges {
-					if l, ok := e.(*ssa.Lookup); ok && l.X == tableParam {
+					if l, ok := e.(*ssa.Lookup); ok && isTable(l.X) {
 						return true
 					}
 				}
@@ -1051,7 +1072,7 @@ func ruleC16Clone(c *Ctx) {
 			c.R.Bad(rule, what, c.pos(at), "a schema taken from the type table or a TypeSchemas override enters the result ("+what+") without passing through CloneSchemas: the result shares Schema objects with the options and with other occurrences of the type, so Resolve rejects the tree or a later mutation leaks")
 		}
 	}
-	core.EachInstr(m.fn, func(i ssa.Instruction) {
+	c.eachFam(m.fn, func(i ssa.Instruction) {
 		switch x := i.(type) {
 		case *ssa.Store:
 			if fa, ok := x.Addr.(*ssa.FieldAddr); ok && c.ownerName(fa.X.Type()) == "Schema" {
@@ -1070,7 +1091,7 @@ func ruleC16Clone(c *Ctx) {
 	})
 	// every value that does come from the table and is used as a schema passes through the clone
 	clones := 0
-	core.EachInstr(m.fn, func(i ssa.Instruction) {
+	c.eachFam(m.fn, func(i ssa.Instruction) {
 		if call, ok := i.(*ssa.Call); ok && call.Call.StaticCallee() == cloneFn && fromTable(call.Call.Args[0]) {
 			clones++
 		}
@@ -1101,11 +1122,16 @@ func ruleC16TableCopy(c *Ctx) {
 		return
 	}
 	inf := c.Closure(rule, "INF")
+	// the recursion's own helpers are not entry points
+	famFns := map[*ssa.Function]bool{}
+	for _, f := range c.familyFuncs(m.fn) {
+		famFns[f] = true
+	}
 	n := 0
 	for _, fn := range inf.Sorted() {
 		core.EachInstr(fn, func(i ssa.Instruction) {
 			call, ok := i.(*ssa.Call)
-			if !ok || call.Call.StaticCallee() != m.fn || fn == m.fn {
+			if !ok || call.Call.StaticCallee() != m.fn || fn == m.fn || famFns[outermost(fn)] {
 				return
 			}
 			n++
@@ -1152,7 +1178,7 @@ func ruleC16Cycle(c *Ctx) {
 	var mark *ssa.MapUpdate
 	var unmark *ssa.Defer
 	var plainDeletes []*ssa.Call
-	core.EachInstr(m.fn, func(i ssa.Instruction) {
+	c.eachFam(m.fn, func(i ssa.Instruction) {
 		switch x := i.(type) {
 		case *ssa.Lookup:
 			if x.X == seenParam && m.subj[x.Index] {
@@ -1186,7 +1212,7 @@ func ruleC16Cycle(c *Ctx) {
 	c.R.Check(rejects, rule, "seen->error", c.pos(test), "a type already being inferred yields an error", "meeting a type that is already being inferred does not yield an error")
 	// the recursion on named types happens after the mark: every self call is dominated by the test block
 	okDom := true
-	core.EachInstr(m.fn, func(i ssa.Instruction) {
+	c.eachFam(m.fn, func(i ssa.Instruction) {
 		if call, ok := i.(*ssa.Call); ok && call.Call.StaticCallee() == m.fn {
 			if !test.Block().Dominates(call.Block()) && !nameTestDominates(m, call) {
 				okDom = false
